@@ -29,8 +29,8 @@ func init() {
 			{Name: "exists-without-lock", File: "internal/core/storage/memory/memory.go", Rule: "R-C13-1",
 				Old: "func (m *Storage) Exists(key string) (bool, error) {\n\tm.mu.RLock()\n\tdefer m.mu.RUnlock()\n", New: "func (m *Storage) Exists(key string) (bool, error) {\n"},
 			{Name: "setnx-check-under-rlock-then-upgrade", File: "internal/core/storage/memory/memory_ops.go", Rule: "R-C13-1",
-				Old: "func (m *Storage) SetNX(key string, value any, ttl time.Duration) (bool, error) {\n\tm.mu.Lock()\n\tdefer m.mu.Unlock()\n\n\t// 检查键是否已存在且未过期\n\tif item, exists := m.data[key]; exists {\n\t\t// 如果键存在但已过期，视为不存在，允许覆盖\n\t\tif item.Expiration.IsZero() || time.Now().Before(item.Expiration) {\n\t\t\treturn false, nil // 键存在且未过期，设置失败\n\t\t}\n\t\t// 键已过期，删除后继续设置\n\t\tdelete(m.data, key)\n\t}\n",
-				New: "func (m *Storage) SetNX(key string, value any, ttl time.Duration) (bool, error) {\n\tm.mu.RLock()\n\titem, exists := m.data[key]\n\tif exists && (item.Expiration.IsZero() || time.Now().Before(item.Expiration)) {\n\t\tm.mu.RUnlock()\n\t\treturn false, nil\n\t}\n\tm.mu.RUnlock()\n\tm.mu.Lock()\n\tdefer m.mu.Unlock()\n"},
+				Old: "\t// 检查键是否已存在且未过期\n\tif item, exists := m.data[key]; exists {\n\t\t// 如果键存在但已过期，视为不存在，允许覆盖\n\t\tif item.Expiration.IsZero() || time.Now().Before(item.Expiration) {\n\t\t\treturn false, nil // 键存在且未过期，设置失败\n\t\t}\n\t\t// 键已过期，删除后继续设置\n\t\tdelete(m.data, key)\n\t}\n",
+				New: "\tm.mu.Unlock()\n\tm.mu.RLock()\n\titem, exists := m.data[key]\n\tif exists && (item.Expiration.IsZero() || time.Now().Before(item.Expiration)) {\n\t\tm.mu.RUnlock()\n\t\tm.mu.Lock()\n\t\treturn false, nil\n\t}\n\tm.mu.RUnlock()\n\tm.mu.Lock()\n"},
 			{Name: "redis-setnx-ttl-unguarded", File: "internal/core/storage/redis/redis_ops.go", Rule: "R-C13-3",
 				Old: "\tif ttl > 0 {\n\t\texpiration = ttl\n\t}", New: "\texpiration = ttl + time.Millisecond"},
 		},
@@ -295,7 +295,7 @@ func checkThenActSameSection(r *Report, rule, pkg, typ, field, lockField string)
 				if !Before(rd.In, w.In) {
 					continue
 				}
-				if Before(k, rd.In) {
+				if Before(k, rd.In) && unlockBetween(rd.In, w.In) == nil {
 					inside = true
 				} else {
 					earlier = true
